@@ -382,6 +382,14 @@ public:
     }
     if (auto *E = dyn_cast<DeclRefExpr>(S)) {
       refDecl(E->getDecl());
+      // compile-time constants (constexpr variables, std::is_same<..>::value): record the value
+      if (auto *VD = dyn_cast<VarDecl>(E->getDecl())) {
+        if (!E->isValueDependent() && !E->isTypeDependent() && E->getType()->isIntegralOrEnumerationType() &&
+            (VD->isConstexpr() || VD->getType().isConstQualified()) && VD->hasGlobalStorage()) {
+          Expr::EvalResult R;
+          if (E->EvaluateAsInt(R, Ctx)) OS << ",\"cv\":" << jstr(llvm::toString(R.Val.getInt(), 10));
+        }
+      }
     } else if (auto *E = dyn_cast<MemberExpr>(S)) {
       refDecl(E->getMemberDecl());
       if (E->isArrow()) OS << ",\"arrow\":1";
